@@ -32,8 +32,9 @@ MANIFEST = {
             "actions to any number of checklists, and every interleaving of their starts and lookup completions, each checklist's callback "
             "receives the action of the first non-banned rule whose ACLs all match (negations, all-of/any-of groups, exception leaves), else "
             "the opposite of the last rule's action marked implicit, else DUNNO for an empty list; no modelled assertion fails; every "
-            "schedule ends (theorems interleaved_checklists_independent, async_eq_sync, answer_eq_reference, implicit_answer, "
-            "fast_eq_reference, schedule_terminates). Hypothesis, shown necessary: no leaf needs 7 lookups in a row that complete inside "
+            "schedule ends (theorems interleaved_checklists_independent, suspended_is_sound, schedule_terminates, async_eq_sync, "
+            "fast_eq_reference, reference_is_first_match, implicit_answer; config_decides_by_first_match ties the parsers' tree to the "
+            "configuration text). Hypothesis, shown necessary: no leaf needs 7 lookups in a row that complete inside "
             "goAsync (theorem loop_limit_counterexample). The real code runs the same scenarios under ASan/UBSan; answers, tree shapes and the "
             "global order of leaf evaluations are compared with the model, answers also with an independent first-match evaluator",
     "note": "trusted: Lean kernel, the harness's synthetic leaves / cbdata / checklist construction, python oracle. Modelled, not verified: "
